@@ -13,6 +13,7 @@ import (
 	"go/token"
 	"go/types"
 	"math"
+	"strings"
 
 	"golang.org/x/tools/go/ssa"
 )
@@ -57,6 +58,27 @@ type prover struct {
 	minmax map[*ssa.Function]string
 	budget int
 	used   []string // axioms actually used (for evidence)
+	entry  []symFact // facts established by the single call site of an unexported helper (symbolic operands)
+	fieldGE []fieldBound // invariants: every load of the field is >= K at any point
+	symGE   []symBound   // assumptions: every value whose symbolic name starts with Prefix is >= K
+	noFacts bool         // ignore the path's branch facts (used to refute a fact from axioms and invariants alone)
+	axiomFn func(pr *prover, f *ssa.Function, pa *Path)
+}
+
+type fieldBound struct {
+	F FieldRef
+	K float64
+}
+
+type symBound struct {
+	Prefix string
+	K      float64
+}
+
+// symFact is a relation between symbolic operands ("p:rtt", "get(recv.rttNoLoad)", "f(recv.estimatedLimit)", "c:0").
+type symFact struct {
+	X, Y   string
+	Op     token.Token
 }
 
 func (pr *prover) axiomLE(a, b Term) { pr.axioms = append(pr.axioms, axiom{b, a, false}) }
@@ -101,10 +123,90 @@ func (pr *prover) res(v ssa.Value) ssa.Value {
 	if v == nil {
 		return nil
 	}
-	if pr.pa != nil {
-		v = pr.pa.ResolveDeep(v, pr.step)
+	for i := 0; i < 8; i++ {
+		if pr.pa != nil {
+			v = pr.pa.ResolveDeep(v, pr.step)
+		}
+		v = strip(v, false)
+		// store -> load forwarding: a load of a field that was stored earlier on the path (same object) is the stored value
+		fw := pr.forward(v)
+		if fw == nil {
+			return v
+		}
+		v = fw
 	}
-	return strip(v, false)
+	return v
+}
+
+// forward: if v is a load of a struct field and the path stored that field (same base object) before the load, the
+// last such stored value; nil otherwise.
+func (pr *prover) forward(v ssa.Value) ssa.Value {
+	if pr.pa == nil {
+		return nil
+	}
+	fr, base, ok := loadedField(v)
+	if !ok {
+		return nil
+	}
+	ld, _ := v.(ssa.Instruction)
+	bap := AccessPath(base).String()
+	var last ssa.Value
+	pr.pa.Each(func(step int, ins ssa.Instruction) bool {
+		if ins == ld {
+			return false
+		}
+		if st, ok := ins.(*ssa.Store); ok {
+			if fa, ok := st.Addr.(*ssa.FieldAddr); ok {
+				if f2, b2, _ := fieldOf(fa); sameField(f2, fr) && AccessPath(b2).String() == bap {
+					last = st.Val
+				}
+			}
+		}
+		return true
+	})
+	return last
+}
+
+// sym gives a value a symbolic name that is stable across functions, for the restricted class: parameters, loads of
+// fields, zero-argument getter calls on field values (pure: Get / EstimatedLimit ...), builtin len of a package variable,
+// numeric conversions of those, and constants. "" when the value is outside the class.
+func (pr *prover) sym(v ssa.Value) string {
+	v = pr.res(v)
+	switch x := v.(type) {
+	case *ssa.Const:
+		if f, ok := constFloat(x); ok {
+			return fmt.Sprintf("c:%g", f)
+		}
+	case *ssa.Parameter:
+		return "p:" + x.Name()
+	case *ssa.Convert:
+		if in := pr.sym(x.X); in != "" {
+			if isFloat(x.X.Type()) && isIntegral(x.Type()) {
+				return "int(" + in + ")"
+			}
+			return in // int->float and width conversions preserve the value
+		}
+	case *ssa.UnOp:
+		if fr, base, ok := loadedField(x); ok {
+			return "f(" + AccessPath(base).String() + "." + fr.Name + ")"
+		}
+		if g, ok := x.X.(*ssa.Global); ok {
+			return "g(" + g.Name() + ")"
+		}
+	case *ssa.Call:
+		cc := x.Common()
+		if cc.IsInvoke() && len(cc.Args) == 0 && (cc.Method.Name() == "Get" || cc.Method.Name() == "EstimatedLimit") {
+			if in := pr.sym(cc.Value); in != "" {
+				return cc.Method.Name() + "(" + in + ")"
+			}
+		}
+		if b, ok := cc.Value.(*ssa.Builtin); ok && b.Name() == "len" && len(cc.Args) == 1 {
+			if in := pr.sym(cc.Args[0]); in != "" {
+				return "len(" + in + ")"
+			}
+		}
+	}
+	return ""
 }
 
 // norm turns value terms that are constants / recognisable field loads into canonical atoms.
@@ -156,11 +258,29 @@ func (pr *prover) same(a, b Term) bool {
 		return *a.C == *b.C
 	case a.F != nil && b.F != nil:
 		return sameField(*a.F, *b.F)
+	case strings.HasPrefix(a.Label, "sym:") || strings.HasPrefix(b.Label, "sym:"):
+		sa, sb := pr.symOfTerm(a), pr.symOfTerm(b)
+		if sa == "" || sa != sb {
+			return false
+		}
+		// a value named by a getter is only the same while nothing mutated the measurement before it in this function
+		for _, t := range []Term{a, b} {
+			if t.V != nil && strings.Contains(sa, "Get(") && pr.mutationBefore(pr.res(t.V)) {
+				return false
+			}
+		}
+		return true
 	case a.Label != "" || b.Label != "":
 		return a.Label == b.Label && a.V == nil && b.V == nil && a.F == nil && b.F == nil && a.C == nil && b.C == nil
 	case a.V != nil && b.V != nil:
 		if a.V == b.V {
 			return true
+		}
+		if sa := pr.sym(a.V); sa != "" && sa == pr.sym(b.V) && !strings.HasPrefix(sa, "f(") {
+			// pure getter calls / conversions / len of the same operand; plain field loads are handled below (entry loads)
+			if !pr.mutatedBetween(a.V, b.V) {
+				return true
+			}
 		}
 		// two entry loads of the same field
 		if fa, _, ok := loadedField(a.V); ok {
@@ -175,6 +295,51 @@ func (pr *prover) same(a, b Term) bool {
 		return pr.isEntryLoadOf(b.V, *a.F)
 	}
 	return false
+}
+
+// mutatedBetween: between the two value-producing instructions on the path, a mutating call (Add / Reset / Update / a
+// store to a field) touches the object a getter reads. Conservative: any such call or field store of interface /
+// pointer type between them counts.
+func (pr *prover) mutatedBetween(a, b ssa.Value) bool {
+	if pr.pa == nil {
+		return false
+	}
+	ia, _ := a.(ssa.Instruction)
+	ib, _ := b.(ssa.Instruction)
+	if ia == nil || ib == nil {
+		return false
+	}
+	state := 0
+	mutated := false
+	pr.pa.Each(func(step int, ins ssa.Instruction) bool {
+		if ins == ia || ins == ib {
+			state++
+			if state == 2 {
+				return false
+			}
+			return true
+		}
+		if state == 1 {
+			if call, ok := ins.(*ssa.Call); ok {
+				cc := call.Common()
+				if cc.IsInvoke() {
+					switch cc.Method.Name() {
+					case "Add", "Reset", "Update":
+						mutated = true
+					}
+				}
+			}
+			if st, ok := ins.(*ssa.Store); ok {
+				if _, ok := st.Addr.(*ssa.FieldAddr); ok {
+					if _, isIface := st.Val.Type().Underlying().(*types.Interface); isIface {
+						mutated = true
+					}
+				}
+			}
+		}
+		return true
+	})
+	return mutated
 }
 
 func (pr *prover) isIntegerTerm(t Term) bool {
@@ -375,6 +540,35 @@ func (pr *prover) rel(a, b Term, strict bool, depth int) bool {
 			}
 		}
 	}
+	// ---- invariants on a: field loads, symbolically named values
+	if a.V != nil {
+		if fr, _, ok := loadedField(a.V); ok {
+			for _, fb := range pr.fieldGE {
+				if sameField(fb.F, fr) && pr.rel(atomConst(fb.K), b, strict, depth+2) {
+					return true
+				}
+			}
+		}
+		if sa := pr.sym(a.V); sa != "" {
+			for _, sb := range pr.symGE {
+				if strings.HasPrefix(sa, sb.Prefix) && pr.rel(atomConst(sb.K), b, strict, depth+2) {
+					return true
+				}
+			}
+		}
+	} else if sa := pr.symOfTerm(a); sa != "" {
+		for _, sb := range pr.symGE {
+			if strings.HasPrefix(sa, sb.Prefix) && pr.rel(atomConst(sb.K), b, strict, depth+2) {
+				return true
+			}
+		}
+	}
+	// a > 0  from  a >= 0 and a != 0
+	if strict && pr.same(b, pr.zero()) && depth < 6 {
+		if pr.neqZero(a) && pr.rel(a, b, false, depth+2) {
+			return true
+		}
+	}
 	// ---- decompose a (lower bounds of a)
 	if a.V != nil {
 		if pr.lower(a.V, b, strict, depth) {
@@ -400,9 +594,37 @@ func (pr *prover) known() []knownRel {
 	for _, ax := range pr.axioms {
 		out = append(out, knownRel{ax.a, ax.b, ax.strict})
 	}
-	if pr.pa != nil {
+	for _, e := range pr.entry {
+		x, y := atomSym(e.X), atomSym(e.Y)
+		switch e.Op {
+		case token.GEQ:
+			out = append(out, knownRel{x, y, false})
+		case token.GTR:
+			out = append(out, knownRel{x, y, true})
+		case token.LEQ:
+			out = append(out, knownRel{y, x, false})
+		case token.LSS:
+			out = append(out, knownRel{y, x, true})
+		case token.EQL:
+			out = append(out, knownRel{x, y, false}, knownRel{y, x, false})
+		}
+	}
+	if pr.pa != nil && !pr.noFacts {
 		for _, r := range pr.pa.Rels(pr.step + 1) {
 			x, y := atomVal(r.X), atomVal(r.Y)
+			// int(X) >= c  (c >= 0)  ==>  X >= c ;  likewise for '>'
+			addF2I := func(a ssa.Value, b ssa.Value, strict bool) {
+				if cv, ok := strip(pr.pa.Resolve(a, pr.step), false).(*ssa.Convert); ok && isFloat(cv.X.Type()) && isIntegral(cv.Type()) {
+					out = append(out, knownRel{atomVal(cv.X), atomVal(b), false})
+					_ = strict
+				}
+			}
+			switch r.Op {
+			case token.GEQ, token.GTR:
+				addF2I(r.X, r.Y, r.Op == token.GTR)
+			case token.LEQ, token.LSS:
+				addF2I(r.Y, r.X, r.Op == token.LSS)
+			}
 			switch r.Op {
 			case token.GEQ:
 				out = append(out, knownRel{x, y, false})
@@ -597,6 +819,29 @@ func (pr *prover) upper(a Term, w ssa.Value, strict bool, depth int) bool {
 	return false
 }
 
+// neqZero: an explicit "!= 0" fact (path or entry) exists for the term.
+func (pr *prover) neqZero(a Term) bool {
+	sa := pr.symOfTerm(a)
+	if sa != "" {
+		for _, e := range pr.entry {
+			if e.Op == token.NEQ && ((e.X == sa && e.Y == "c:0") || (e.Y == sa && e.X == "c:0")) {
+				return true
+			}
+		}
+	}
+	if pr.pa != nil {
+		for _, rel := range pr.pa.Rels(pr.step + 1) {
+			if rel.Op != token.NEQ {
+				continue
+			}
+			if (pr.same(atomVal(rel.X), a) && pr.same(atomVal(rel.Y), pr.zero())) || (pr.same(atomVal(rel.Y), a) && pr.same(atomVal(rel.X), pr.zero())) {
+				return true
+			}
+		}
+	}
+	return false
+}
+
 // NonZero proves v != 0.
 func (pr *prover) NonZero(v ssa.Value) bool {
 	pr.budget = 4000
@@ -607,8 +852,21 @@ func (pr *prover) NonZero(v ssa.Value) bool {
 	if pr.rel(pr.zero(), atomVal(v), true, 0) {
 		return true
 	}
-	// explicit != 0 fact
+	// explicit != 0 fact established by the caller
+	if sv := pr.sym(v); sv != "" {
+		for _, e := range pr.entry {
+			if e.Op == token.NEQ && ((e.X == sv && e.Y == "c:0") || (e.Y == sv && e.X == "c:0")) {
+				return true
+			}
+		}
+	}
+	// explicit != 0 fact (width / int->float conversions keep zero-ness)
 	r := pr.res(v)
+	for i := 0; i < 4; i++ {
+		if cv, ok := r.(*ssa.Convert); ok && !(isFloat(cv.X.Type()) && isIntegral(cv.Type())) {
+			r = pr.res(cv.X)
+		}
+	}
 	if pr.pa != nil {
 		for _, rel := range pr.pa.Rels(pr.step + 1) {
 			if rel.Op != token.NEQ {
@@ -620,4 +878,358 @@ func (pr *prover) NonZero(v ssa.Value) bool {
 		}
 	}
 	return false
+}
+
+// Infeasible reports whether some branch fact of the path is refuted by the axioms and invariants alone (the path
+// cannot be executed under the stated assumptions).
+func (pr *prover) Infeasible() bool {
+	if pr.pa == nil {
+		return false
+	}
+	q := *pr
+	q.noFacts = true
+	for _, r := range pr.pa.Rels(pr.step + 1) {
+		x, y := atomVal(r.X), atomVal(r.Y)
+		q.budget = 2000
+		switch r.Op {
+		case token.GEQ: // refute with y > x
+			if q.rel(y, x, true, 0) {
+				return true
+			}
+		case token.GTR:
+			if q.rel(y, x, false, 0) {
+				return true
+			}
+		case token.LEQ:
+			if q.rel(x, y, true, 0) {
+				return true
+			}
+		case token.LSS:
+			if q.rel(x, y, false, 0) {
+				return true
+			}
+		}
+	}
+	return false
+}
+
+// ---------------------------------------------------------------- symbolic atoms and entry facts
+
+func atomSym(s string) Term {
+	if strings.HasPrefix(s, "c:") {
+		var f float64
+		if _, err := fmt.Sscanf(s[2:], "%g", &f); err == nil {
+			return atomConst(f)
+		}
+	}
+	return Term{Label: "sym:" + s}
+}
+
+// symOfTerm: the symbolic name of a term ("" if none).
+func (pr *prover) symOfTerm(t Term) string {
+	switch {
+	case strings.HasPrefix(t.Label, "sym:"):
+		return t.Label[4:]
+	case t.V != nil:
+		return pr.sym(t.V)
+	case t.C != nil:
+		return fmt.Sprintf("c:%g", *t.C)
+	}
+	return ""
+}
+
+// mutationBefore: a mutating measurement call or an interface-typed field store occurs on the path before ins.
+func (pr *prover) mutationBefore(v ssa.Value) bool {
+	if pr.pa == nil {
+		return false
+	}
+	target, _ := v.(ssa.Instruction)
+	mutated := false
+	pr.pa.Each(func(step int, ins ssa.Instruction) bool {
+		if ins == target {
+			return false
+		}
+		if call, ok := ins.(*ssa.Call); ok {
+			cc := call.Common()
+			if cc.IsInvoke() {
+				switch cc.Method.Name() {
+				case "Add", "Reset", "Update":
+					mutated = true
+				}
+			}
+		}
+		return true
+	})
+	return mutated
+}
+
+// EntryFacts computes the relations that hold on entry to the unexported helper h: the intersection, over every path
+// prefix of its single caller up to the call, of the branch facts whose operands are symbolically nameable and are not
+// invalidated by a mutation between the test and the call. Operands are translated into h's parameter names.
+func (p *Prog) EntryFacts(h *ssa.Function) []symFact {
+	if isExportedFunc(h) || p.addrTaken[h] {
+		return nil
+	}
+	li := p.Locksets()
+	sites := li.sites[h]
+	if len(sites) != 1 {
+		return nil
+	}
+	site := sites[0]
+	callIns := site.Instr.(ssa.Instruction)
+	caller := callIns.Parent()
+	// argument translation
+	args := site.Instr.Common().Args
+	var count map[string]int
+	npaths := 0
+	EnumPathsPrefix(caller, callIns, 50000, func(pa *Path) bool {
+		npaths++
+		pr := &prover{p: p, pa: pa, step: len(pa.Blocks) - 1}
+		tr := map[string]string{}
+		for i, prm := range h.Params {
+			if i < len(args) {
+				if sa := pr.sym(args[i]); sa != "" {
+					tr[sa] = "p:" + prm.Name()
+				}
+				// receiver / pointer arguments: rename access-path roots inside f(...)
+				ap := AccessPath(args[i]).String()
+				tr["f("+ap+"."] = "f(" + prm.Name() + "."
+			}
+		}
+		translate := func(s string) string {
+			if t, ok := tr[s]; ok {
+				return t
+			}
+			for k, v := range tr {
+				if strings.HasSuffix(k, ".") && strings.Contains(s, k) {
+					s = strings.ReplaceAll(s, k, v)
+				}
+			}
+			return s
+		}
+		seen := map[string]bool{}
+		for _, f := range pa.Facts {
+			r, ok := relOf(f)
+			if !ok {
+				continue
+			}
+			sx, sy := pr.sym(r.X), pr.sym(r.Y)
+			if sx == "" || sy == "" {
+				continue
+			}
+			// no mutation between the test and the call
+			mutated := false
+			for i := f.Step + 1; i < len(pa.Blocks); i++ {
+				for _, ins := range pa.Blocks[i].Instrs {
+					if ins == callIns {
+						break
+					}
+					if call, ok := ins.(*ssa.Call); ok && call.Common().IsInvoke() {
+						switch call.Common().Method.Name() {
+						case "Add", "Reset", "Update":
+							mutated = true
+						}
+					}
+				}
+			}
+			if mutated {
+				continue
+			}
+			key := translate(sx) + "|" + r.Op.String() + "|" + translate(sy)
+			seen[key] = true
+		}
+		if count == nil {
+			count = map[string]int{}
+		}
+		for k := range seen {
+			count[k]++
+		}
+		return true
+	})
+	var out []symFact
+	for k, n := range count {
+		if n != npaths {
+			continue
+		}
+		parts := strings.Split(k, "|")
+		var op token.Token
+		switch parts[1] {
+		case "<":
+			op = token.LSS
+		case "<=":
+			op = token.LEQ
+		case ">":
+			op = token.GTR
+		case ">=":
+			op = token.GEQ
+		case "==":
+			op = token.EQL
+		case "!=":
+			op = token.NEQ
+		}
+		out = append(out, symFact{X: parts[0], Y: parts[2], Op: op})
+	}
+	return out
+}
+
+// ---------------------------------------------------------------- field invariants
+
+// NonNegativeField: every store to the field anywhere in the module is a non-negative constant or old + positive
+// constant (who-may-write induction), so the field is >= 0 in every reachable state.
+func (p *Prog) NonNegativeField(f FieldRef) bool {
+	n := 0
+	for _, fn := range p.Funcs {
+		for _, a := range p.Accesses(fn) {
+			if !a.Write || !sameField(a.Field, f) || a.Pointee {
+				continue
+			}
+			n++
+			if d, ok := p.DeltaOf(a.Instr); ok && d.By >= 0 {
+				continue
+			}
+			if a.Val != nil {
+				if c, ok := constFloat(a.Val); ok && c >= 0 {
+					continue
+				}
+			}
+			return false
+		}
+	}
+	return true
+}
+
+// ImmutableFieldGE: field f is never written after construction and every constructor path stores a value proved
+// >= k (or <= k when le). When a constructor stores a raw parameter, every call site of that constructor in the module
+// (non-test code) must prove the argument's bound instead.
+func (p *Prog) ImmutableFieldBound(f FieldRef, k float64, le bool) bool {
+	for _, fn := range p.Funcs {
+		for _, a := range p.Accesses(fn) {
+			if a.Write && sameField(a.Field, f) && !freshBase(a) {
+				return false
+			}
+		}
+	}
+	ctors := p.Constructors(f.Type)
+	if len(ctors) == 0 {
+		// composite literals without constructor: zero value
+		if le {
+			return 0 <= k
+		}
+		return 0 >= k
+	}
+	check := func(pr *prover, v ssa.Value) bool {
+		if le {
+			return pr.LE(v, atomConst(k))
+		}
+		return pr.GE(v, atomConst(k))
+	}
+	for _, c := range ctors {
+		al := p.allocOf(c, f.Type)
+		vals := storesInto(al, f)
+		if len(vals) == 0 {
+			if (le && 0 > k) || (!le && 0 < k) {
+				return false
+			}
+			continue
+		}
+		for _, v := range vals {
+			st := valueStoreInstr(al, f, v)
+			ok := true
+			n := 0
+			EnumPaths(c, 400000, func(pa *Path) bool {
+				if !pa.IsReturn() || st == nil || !pa.Contains(st) {
+					return true
+				}
+				n++
+				pr := &prover{p: p, pa: pa, step: pa.StepOf(st)}
+				if check(pr, v) {
+					return true
+				}
+				// raw parameter: look at the module's call sites of this constructor
+				if prm, isP := pr.res(v).(*ssa.Parameter); isP {
+					if p.paramBoundAtCallSites(c, prm, k, le) {
+						return true
+					}
+				}
+				ok = false
+				return false
+			})
+			if !ok || n == 0 {
+				return false
+			}
+		}
+	}
+	return true
+}
+
+func valueStoreInstr(al *ssa.Alloc, f FieldRef, v ssa.Value) ssa.Instruction {
+	refs := al.Referrers()
+	if refs == nil {
+		return nil
+	}
+	for _, r := range *refs {
+		fa, ok := r.(*ssa.FieldAddr)
+		if !ok || fa.Field != f.Index {
+			continue
+		}
+		if fr := fa.Referrers(); fr != nil {
+			for _, u := range *fr {
+				if st, ok := u.(*ssa.Store); ok && st.Val == v {
+					return st
+				}
+			}
+		}
+	}
+	return nil
+}
+
+var callSiteAxioms func(p *Prog, pr *prover, f *ssa.Function, pa *Path)
+
+func (p *Prog) paramBoundAtCallSites(c *ssa.Function, prm *ssa.Parameter, k float64, le bool) bool {
+	if p.inCallSiteBound > 3 {
+		return false
+	}
+	p.inCallSiteBound++
+	defer func() { p.inCallSiteBound-- }()
+	idx := -1
+	for i, q := range c.Params {
+		if q == prm {
+			idx = i
+		}
+	}
+	if idx < 0 {
+		return false
+	}
+	sites := 0
+	okAll := true
+	for _, g := range p.Funcs {
+		if strings.HasPrefix(p.PkgOf(g), "examples") {
+			continue
+		}
+		allInstrs(g, func(ins ssa.Instruction) {
+			call, ok := ins.(*ssa.Call)
+			if !ok || p.CallOf(call).Static != c {
+				return
+			}
+			sites++
+			arg := call.Call.Args[idx]
+			EnumPathsPrefix(g, call, 400000, func(pa *Path) bool {
+				pr := &prover{p: p, pa: pa, step: len(pa.Blocks) - 1}
+				if callSiteAxioms != nil {
+					callSiteAxioms(p, pr, g, pa)
+				}
+				var ok bool
+				if le {
+					ok = pr.LE(arg, atomConst(k))
+				} else {
+					ok = pr.GE(arg, atomConst(k))
+				}
+				if !ok {
+					okAll = false
+				}
+				return okAll
+			})
+		})
+	}
+	return sites > 0 && okAll
 }
